@@ -14,6 +14,13 @@ pub struct Scenario {
     /// the history; `Crash` ops may appear inside (crash-continue-crash). A final crash is always
     /// injected after the last op.
     pub ops: Vec<FsOp>,
+    /// false: direct driver (entered Fs, Fs::crash). true: the same history as a host program inside a
+    /// running turmoil::Sim, crash = Sim::crash + Sim::bounce, the restarted incarnation dumps the tree.
+    #[serde(default)]
+    pub in_sim: bool,
+    /// in-Sim only: history of a second host with the same path names (independent tree)
+    #[serde(default)]
+    pub ops2: Vec<FsOp>,
 }
 
 pub struct C07;
@@ -76,13 +83,13 @@ impl Property for C07 {
     type Scenario = Scenario;
 
     fn rule() -> String {
-        "seeded state-aware histories of 2-14 ops (create, create_new, open truncate/append, write_at, append, set_len, sync_all, sync_data, sync_dir, rename incl. onto existing names, remove_file, create_dir, remove_dir) through the std and tokio shims, sync_probability in {0,0.3}, block_size in {None,4,16}; fault = crash: for each seeded history a crash is injected after EVERY prefix (fresh Fs per prefix; handles dropped, Fs::crash), a quarter of the histories also contain an earlier crash (crash-continue-crash); after each crash the recursive tree (entry sets, kinds, lengths, full contents) is compared with the durable image of the inode-based reference model (entry durable iff its parent was sync_dir'ed after the entry change; content = content at last data sync; with the knobs on, content must lie in the admissible set: a later data-op snapshot / block-prefix overlays of pending writes). Non-trivial: the crash discarded >=1 pending change and >=1 durable file or directory survived; distinct = distinct digests of (op kinds, post-crash tree shape)".into()
+        "seeded state-aware histories of 2-14 ops (create, create_new, open truncate/append, write_at, append, set_len, sync_all, sync_data, sync_dir, rename incl. onto existing names, remove_file, create_dir, remove_dir) through the std shim, the tokio shim and io_uring (write/fsync SQEs), sync_probability in {0,0.3}, block_size in {None,4,16}; fault = crash: for each seeded history a crash is injected after EVERY prefix (fresh Fs per prefix; handles dropped, Fs::crash), a quarter of the histories also contain an earlier crash (crash-continue-crash); a third of the crash points are additionally replayed inside a running turmoil::Sim (history as host program, Sim::crash + Sim::bounce, the restarted incarnation dumps the tree, a second host runs the full history on the same path names); after each crash the recursive tree (entry sets, kinds, lengths, full contents) is compared with the durable image of the inode-based reference model (entry durable iff its parent was sync_dir'ed after the entry change; content = content at last data sync; with the knobs on, content must lie in the admissible set: a later data-op snapshot / block-prefix overlays of pending writes). Non-trivial: the crash discarded >=1 pending change and >=1 durable file or directory survived; distinct = distinct digests of (op kinds, post-crash tree shape)".into()
     }
     fn components_real() -> Vec<&'static str> {
         vec!["turmoil-fs: Fs (pending log, sync_file, sync_file_data, sync_dir, crash, torn writes, random sync), shim::std::fs, shim::tokio::fs"]
     }
     fn components_stub() -> Vec<&'static str> {
-        vec!["the workload and the embedder: the harness calls turmoil_fs::enter and Fs::crash itself (what turmoil::Sim::crash does for a host); the in-Sim path (Sim::crash/bounce) is exercised by C04's fs phase"]
+        vec!["the workload; in the direct driver also the embedder (the harness calls turmoil_fs::enter and Fs::crash itself); in the in-Sim driver the history runs as a host program inside a real turmoil::Sim (Sim::crash + Sim::bounce, second host with the same paths)"]
     }
     fn assumptions() -> Vec<String> {
         vec![
@@ -129,107 +136,48 @@ impl Property for C07 {
             guard_step(&mut gs, &op, &mo);
             ops.push(op);
         }
-        Scenario { guarded, knobs, ops }
+        Scenario { guarded, knobs, ops, in_sim: false, ops2: vec![] }
     }
 
     /// Fault enumeration: a crash after every prefix of the history.
     fn variants(base: &Scenario, _tier: Tier) -> Vec<Scenario> {
         (1..=base.ops.len())
             .filter(|k| !matches!(base.ops[*k - 1], FsOp::Crash))
-            .map(|k| Scenario { guarded: base.guarded, knobs: base.knobs.clone(), ops: base.ops[..k].to_vec() })
+            .map(|k| Scenario { guarded: base.guarded, knobs: base.knobs.clone(), ops: base.ops[..k].to_vec(), in_sim: false, ops2: vec![] })
+            // the same fault placements once more inside a running simulation (Sim::crash / Sim::bounce),
+            // with the full history running on a second host with identical path names
+            .chain((1..=base.ops.len()).filter(|k| !matches!(base.ops[*k - 1], FsOp::Crash) && (*k % 3 == base.ops.len() % 3)).map(|k| Scenario {
+                guarded: base.guarded,
+                knobs: base.knobs.clone(),
+                ops: base.ops[..k].to_vec(),
+                in_sim: true,
+                ops2: base.ops.clone(),
+            }))
             .collect()
     }
 
     fn run(sc: &Scenario, keep: bool) -> Report {
+        if sc.in_sim {
+            return run_in_sim(sc, keep);
+        }
         let mut log = Log::new(keep);
         let mut real = RealFs::new(&sc.knobs);
-        let mut m = Model::new();
-        let mut violation: Option<Violation> = None;
+        let mut j = Judge::new(&sc.knobs, "");
         let mut harness_error = None;
-        let mut rep = Report::default();
-        let mut nontrivial = false;
         let mut ops: Vec<FsOp> = sc.ops.clone();
         ops.push(FsOp::Crash);
-        'run: for (i, op) in ops.iter().enumerate() {
+        for (i, op) in ops.iter().enumerate() {
             if let FsOp::Crash = op {
                 // ---- the fault ----
-                let before = model_sweep(&m);
-                // snapshot what the model needs for the admissible sets before it forgets
-                let pre = m.clone();
-                let dangling = m.crash();
+                let exp = j.crash_expect();
                 real.crash();
-                rep.faults.inc("crash");
-                let after = model_sweep(&m);
                 let rs = real.sweep();
-                log.ev(format!("#{i} CRASH -> tree {:?}", rs.iter().filter(|(_, e)| **e != SweepEntry::Absent).map(|(p, e)| (p.clone(), brief(e))).collect::<Vec<_>>()));
-                let survivors = after.iter().filter(|(p, e)| p.as_str() != "/" && **e != SweepEntry::Absent).count();
-                if before != after && survivors > 0 {
-                    nontrivial = true;
-                }
-                if before != after {
-                    rep.probes.inc("crash_discarded_pending_state");
-                }
-                log.tag("crash");
-                log.tag_u64(survivors as u64);
-                for (p, me) in &after {
-                    let re = &rs[p];
-                    // judged only when every ancestor directory is itself durable (property text:
-                    // dangling subtrees are unspecified); a wrong ancestor is flagged at the ancestor
-                    let mut anc = parent_of(p);
-                    let mut ancestors_durable = true;
-                    while anc != "/" {
-                        if !matches!(after.get(anc), Some(SweepEntry::Dir(_))) {
-                            ancestors_durable = false;
-                        }
-                        anc = parent_of(anc);
-                    }
-                    if p.as_str() != "/" && !ancestors_durable {
-                        continue;
-                    }
-                    let ok = match (me, re) {
-                        (SweepEntry::File { content: mc, .. }, SweepEntry::File { len, content }) => {
-                            if *len != content.len() as u64 {
-                                false
-                            } else if sc.knobs.sync_pct == 0 && sc.knobs.block_size == 0 {
-                                mc == content
-                            } else {
-                                let ino = m.lookup(p).unwrap();
-                                let ok = pre.admissible_after_crash(ino, sc.knobs.sync_pct > 0, sc.knobs.block_size, content);
-                                if ok && mc != content {
-                                    rep.probes.inc(if sc.knobs.block_size > 0 { "torn_or_bg_synced_content_observed" } else { "bg_synced_content_observed" });
-                                    // the model continues from what the disk really holds
-                                    if let Inode::File { data } = &mut m.inodes[ino] {
-                                        *data = content.clone();
-                                    }
-                                    m.durable_content.insert(ino, content.clone());
-                                }
-                                ok
-                            }
-                        }
-                        (a, b) => a == b,
-                    };
-                    if !ok {
-                        let class = match (me, re) {
-                            (SweepEntry::File { .. }, SweepEntry::File { .. }) => "PostCrashContent",
-                            _ => "PostCrashTree",
-                        };
-                        violation = Some(Violation::new(
-                            class,
-                            format!("after crash at #{i}: path {p}: durable image says {}, filesystem holds {}", brief(me), brief(re)),
-                        ));
-                        break 'run;
-                    }
-                }
-                if dangling {
-                    rep.probes.inc("dangling_subtree_run_cut");
+                if !j.check_crash(i, exp, &rs, &mut log) {
                     break;
                 }
                 continue;
             }
-            let mo = exec_model(&mut m, op);
-            if mo == Obs::Unjudged {
-                break;
-            }
+            let Some(mo) = j.model_op(op) else { break };
             let ro = match real.exec(op) {
                 Ok(o) => o,
                 Err(e) => {
@@ -237,19 +185,17 @@ impl Property for C07 {
                     break;
                 }
             };
-            log.ev(format!("#{i} {:?} -> {}", op, obs_brief(&ro)));
-            log.tag(op.kind());
-            if c10::compare(&mo, &ro).is_some() {
-                rep.probes.inc("precrash_divergence");
+            if !j.check_op(i, op, &mo, &ro, &mut log) {
                 break;
             }
         }
+        let mut rep = j.rep;
         rep.abstract_digest = log.abs_digest();
         rep.full_digest = log.full_digest();
         rep.log = log.lines;
-        rep.violation = violation;
+        rep.violation = j.violation;
         rep.harness_error = harness_error;
-        rep.nontrivial = nontrivial;
+        rep.nontrivial = j.nontrivial;
         rep.steps = sc.ops.len() as u64;
         rep
     }
@@ -257,9 +203,15 @@ impl Property for C07 {
     fn shrink(sc: &Scenario) -> Vec<Scenario> {
         let mut out: Vec<Scenario> = c10::shrink_ops(&sc.ops)
             .into_iter()
-            .map(|ops| Scenario { guarded: sc.guarded, knobs: sc.knobs.clone(), ops })
+            .map(|ops| Scenario { guarded: sc.guarded, knobs: sc.knobs.clone(), ops, in_sim: sc.in_sim, ops2: sc.ops2.clone() })
             .filter(|c| !sc.guarded || first_known(&c.ops).is_none())
             .collect();
+        if !sc.ops2.is_empty() {
+            out.push(Scenario { ops2: vec![], ..sc.clone() });
+        }
+        if sc.in_sim {
+            out.push(Scenario { in_sim: false, ops2: vec![], ..sc.clone() });
+        }
         if sc.knobs.sync_pct > 0 {
             out.push(Scenario { knobs: FsKnobs { sync_pct: 0, ..sc.knobs.clone() }, ..sc.clone() });
         }
@@ -271,7 +223,8 @@ impl Property for C07 {
 
     fn signature(sc: &Scenario) -> String {
         format!(
-            "{}{} s{} b{} {}",
+            "{}{}{} s{} b{} {}",
+            if sc.in_sim { "SIM " } else { "" },
             first_known(&sc.ops).map(|k| format!("KNOWN[{k}] ")).unwrap_or_default(),
             if sc.guarded { "G" } else { "U" },
             sc.knobs.sync_pct,
@@ -282,7 +235,7 @@ impl Property for C07 {
 
     fn known_match(matcher: &str, sc: &Scenario, _v: &Violation) -> bool {
         let _ = ALL_KF;
-        first_known(&sc.ops) == Some(matcher)
+        first_known(&sc.ops) == Some(matcher) || (sc.in_sim && first_known(&sc.ops2) == Some(matcher))
     }
 }
 
@@ -292,4 +245,312 @@ fn brief(e: &SweepEntry) -> String {
         SweepEntry::Dir(n) => format!("dir{:?}", n),
         SweepEntry::File { len, content } => format!("file(len={}, {:?})", len, &content[..content.len().min(24)]),
     }
+}
+
+/// The oracle shared by the direct and the in-Sim driver: reference model + durable image.
+struct Judge {
+    m: Model,
+    knobs: FsKnobs,
+    violation: Option<Violation>,
+    nontrivial: bool,
+    rep: Report,
+    who: String,
+}
+
+struct CrashExpect {
+    before: std::collections::BTreeMap<String, SweepEntry>,
+    pre: Model,
+    after: std::collections::BTreeMap<String, SweepEntry>,
+    dangling: bool,
+}
+
+impl Judge {
+    fn new(knobs: &FsKnobs, who: &str) -> Self {
+        Judge { m: Model::new(), knobs: knobs.clone(), violation: None, nontrivial: false, rep: Report::default(), who: who.to_string() }
+    }
+
+    /// Apply `op` to the model; None = outside the property, stop judging.
+    fn model_op(&mut self, op: &FsOp) -> Option<Obs> {
+        let mo = exec_model(&mut self.m, op);
+        if mo == Obs::Unjudged {
+            None
+        } else {
+            Some(mo)
+        }
+    }
+
+    /// false = stop this run (pre-crash divergence is C10's business)
+    fn check_op(&mut self, i: usize, op: &FsOp, mo: &Obs, ro: &Obs, log: &mut Log) -> bool {
+        log.ev(format!("{}#{i} {:?} -> {}", self.who, op, obs_brief(ro)));
+        log.tag(op.kind());
+        if c10::compare(mo, ro).is_some() {
+            self.rep.probes.inc("precrash_divergence");
+            return false;
+        }
+        true
+    }
+
+    /// Crash the model; remember what is needed to judge the real tree.
+    fn crash_expect(&mut self) -> CrashExpect {
+        let before = model_sweep(&self.m);
+        // snapshot what the model needs for the admissible sets before it forgets
+        let pre = self.m.clone();
+        let dangling = self.m.crash();
+        self.rep.faults.inc("crash");
+        let after = model_sweep(&self.m);
+        CrashExpect { before, pre, after, dangling }
+    }
+
+    /// Compare the post-crash tree; false = stop this run.
+    fn check_crash(&mut self, i: usize, exp: CrashExpect, rs: &std::collections::BTreeMap<String, SweepEntry>, log: &mut Log) -> bool {
+        let CrashExpect { before, pre, after, dangling } = exp;
+        log.ev(format!("{}#{i} CRASH -> tree {:?}", self.who, rs.iter().filter(|(_, e)| **e != SweepEntry::Absent).map(|(p, e)| (p.clone(), brief(e))).collect::<Vec<_>>()));
+        let survivors = after.iter().filter(|(p, e)| p.as_str() != "/" && **e != SweepEntry::Absent).count();
+        if before != after && survivors > 0 {
+            self.nontrivial = true;
+        }
+        if before != after {
+            self.rep.probes.inc("crash_discarded_pending_state");
+        }
+        log.tag("crash");
+        log.tag_u64(survivors as u64);
+        for (p, me) in &after {
+            let re = &rs[p];
+            // judged only when every ancestor directory is itself durable (property text:
+            // dangling subtrees are unspecified); a wrong ancestor is flagged at the ancestor
+            let mut anc = parent_of(p);
+            let mut ancestors_durable = true;
+            while anc != "/" {
+                if !matches!(after.get(anc), Some(SweepEntry::Dir(_))) {
+                    ancestors_durable = false;
+                }
+                anc = parent_of(anc);
+            }
+            if p.as_str() != "/" && !ancestors_durable {
+                continue;
+            }
+            let ok = match (me, re) {
+                (SweepEntry::File { content: mc, .. }, SweepEntry::File { len, content }) => {
+                    if *len != content.len() as u64 {
+                        false
+                    } else if self.knobs.sync_pct == 0 && self.knobs.block_size == 0 {
+                        mc == content
+                    } else {
+                        let ino = self.m.lookup(p).unwrap();
+                        let ok = pre.admissible_after_crash(ino, self.knobs.sync_pct > 0, self.knobs.block_size, content);
+                        if ok && mc != content {
+                            self.rep.probes.inc(if self.knobs.block_size > 0 { "torn_or_bg_synced_content_observed" } else { "bg_synced_content_observed" });
+                            // the model continues from what the disk really holds
+                            if let Inode::File { data } = &mut self.m.inodes[ino] {
+                                *data = content.clone();
+                            }
+                            self.m.durable_content.insert(ino, content.clone());
+                        }
+                        ok
+                    }
+                }
+                (a, b) => a == b,
+            };
+            if !ok {
+                let class = match (me, re) {
+                    (SweepEntry::File { .. }, SweepEntry::File { .. }) => "PostCrashContent",
+                    _ => "PostCrashTree",
+                };
+                self.violation = Some(Violation::new(
+                    class,
+                    format!("{}after crash at #{i}: path {p}: durable image says {}, filesystem holds {}", self.who, brief(me), brief(re)),
+                ));
+                return false;
+            }
+        }
+        if dangling {
+            self.rep.probes.inc("dangling_subtree_run_cut");
+            return false;
+        }
+        true
+    }
+}
+
+// ---- in-Sim driver ------------------------------------------------------------------------------
+
+#[derive(Clone)]
+enum HostEvent {
+    Op(usize, Obs),
+    /// first thing a restarted incarnation does: dump the tree
+    Sweep(std::collections::BTreeMap<String, SweepEntry>),
+    Error(String),
+}
+
+struct HostShared {
+    ops: Vec<FsOp>,
+    cursor: std::cell::Cell<usize>,
+    want_crash: std::cell::Cell<bool>,
+    incarnation: std::cell::Cell<u32>,
+    events: std::cell::RefCell<Vec<HostEvent>>,
+}
+
+async fn host_program(sh: std::rc::Rc<HostShared>) -> turmoil::Result {
+    let inc = sh.incarnation.get() + 1;
+    sh.incarnation.set(inc);
+    let mut ops = crate::fskit::Ops::default();
+    if inc > 1 {
+        sh.events.borrow_mut().push(HostEvent::Sweep(ops.sweep_entered()));
+    }
+    loop {
+        let i = sh.cursor.get();
+        if i >= sh.ops.len() {
+            break;
+        }
+        match &sh.ops[i] {
+            FsOp::Crash => {
+                sh.want_crash.set(true);
+                break;
+            }
+            FsOp::Advance { ms } => {
+                tokio::time::sleep(std::time::Duration::from_millis((*ms).min(50) as u64)).await;
+                sh.events.borrow_mut().push(HostEvent::Op(i, Obs::Unit));
+            }
+            op => {
+                match ops.exec_entered(op) {
+                    Ok(o) => sh.events.borrow_mut().push(HostEvent::Op(i, o)),
+                    Err(e) => {
+                        sh.events.borrow_mut().push(HostEvent::Error(e));
+                        break;
+                    }
+                }
+                if i % 3 == 2 {
+                    tokio::task::yield_now().await;
+                }
+            }
+        }
+        sh.cursor.set(i + 1);
+    }
+    // keep the handles alive (a crash drops them with the task)
+    std::future::pending::<()>().await;
+    drop(ops);
+    Ok(())
+}
+
+fn run_in_sim(sc: &Scenario, keep: bool) -> Report {
+    use std::rc::Rc;
+    let mut log = Log::new(keep);
+    let mut lists: Vec<Vec<FsOp>> = vec![sc.ops.clone()];
+    if !sc.ops2.is_empty() {
+        lists.push(sc.ops2.clone());
+    }
+    for l in lists.iter_mut() {
+        l.push(FsOp::Crash); // final crash
+    }
+    let shared: Vec<Rc<HostShared>> = lists
+        .iter()
+        .map(|l| {
+            Rc::new(HostShared {
+                ops: l.clone(),
+                cursor: std::cell::Cell::new(0),
+                want_crash: std::cell::Cell::new(false),
+                incarnation: std::cell::Cell::new(0),
+                events: std::cell::RefCell::new(Vec::new()),
+            })
+        })
+        .collect();
+    let mut judges: Vec<Judge> = (0..lists.len()).map(|h| Judge::new(&sc.knobs, &format!("n{h} "))).collect();
+    let mut pending_crash: Vec<Option<(usize, CrashExpect)>> = (0..lists.len()).map(|_| None).collect();
+    let mut active: Vec<bool> = vec![true; lists.len()];
+    let mut harness_error = None;
+
+    let res = crate::core::catch(|| {
+        let mut b = turmoil::Builder::new();
+        b.rng_seed(sc.knobs.fs_seed).epoch(std::time::UNIX_EPOCH + std::time::Duration::from_secs(1_500_000_000)).tick_duration(std::time::Duration::from_millis(1));
+        {
+            let f = b.fs();
+            if sc.knobs.sync_pct > 0 {
+                f.sync_probability(sc.knobs.sync_pct as f64 / 100.0);
+            }
+            if sc.knobs.block_size > 0 {
+                f.block_size(sc.knobs.block_size);
+            }
+        }
+        let mut sim = b.build();
+        for (h, sh) in shared.iter().enumerate() {
+            let sh = sh.clone();
+            sim.host(format!("n{h}"), move || host_program(sh.clone()));
+        }
+        let mut consumed: Vec<usize> = vec![0; shared.len()];
+        for _step in 0..2000 {
+            if let Err(e) = sim.step() {
+                return Some(format!("Sim::step failed: {e}"));
+            }
+            for h in 0..shared.len() {
+                // judge what the host did in this step, in order
+                let evs: Vec<HostEvent> = shared[h].events.borrow()[consumed[h]..].to_vec();
+                consumed[h] += evs.len();
+                for ev in evs {
+                    if !active[h] {
+                        break;
+                    }
+                    match ev {
+                        HostEvent::Op(i, ro) => {
+                            let op = &shared[h].ops[i];
+                            match judges[h].model_op(op) {
+                                None => active[h] = false,
+                                Some(mo) => {
+                                    if !judges[h].check_op(i, op, &mo, &ro, &mut log) {
+                                        active[h] = false;
+                                    }
+                                }
+                            }
+                        }
+                        HostEvent::Sweep(rs) => {
+                            if let Some((i, exp)) = pending_crash[h].take() {
+                                if !judges[h].check_crash(i, exp, &rs, &mut log) {
+                                    active[h] = false;
+                                }
+                            }
+                        }
+                        HostEvent::Error(e) => return Some(e),
+                    }
+                }
+                if active[h] && shared[h].want_crash.get() {
+                    shared[h].want_crash.set(false);
+                    let i = shared[h].cursor.get();
+                    // ---- the fault: Sim::crash, then Sim::bounce ----
+                    let exp = judges[h].crash_expect();
+                    pending_crash[h] = Some((i, exp));
+                    sim.crash(format!("n{h}"));
+                    shared[h].cursor.set(i + 1);
+                    sim.bounce(format!("n{h}"));
+                }
+            }
+            let all_done = (0..shared.len()).all(|h| !active[h] || (shared[h].cursor.get() >= shared[h].ops.len() && pending_crash[h].is_none() && !shared[h].want_crash.get()));
+            if all_done {
+                break;
+            }
+        }
+        drop(sim);
+        None
+    });
+    match res {
+        Ok(Some(e)) => harness_error = Some(e),
+        Ok(None) => {}
+        Err(p) => harness_error = Some(format!("panic in the in-Sim driver: {p}")),
+    }
+    let mut rep = Report::default();
+    for j in judges {
+        rep.faults.merge(&j.rep.faults);
+        rep.probes.merge(&j.rep.probes);
+        if rep.violation.is_none() {
+            rep.violation = j.violation;
+        }
+        rep.nontrivial |= j.nontrivial;
+    }
+    rep.probes.inc("in_sim_run");
+    if shared.len() > 1 {
+        rep.probes.inc("in_sim_two_hosts_same_paths");
+    }
+    rep.abstract_digest = log.abs_digest();
+    rep.full_digest = log.full_digest();
+    rep.log = log.lines;
+    rep.harness_error = harness_error;
+    rep.steps = sc.ops.len() as u64;
+    rep
 }
